@@ -19,7 +19,7 @@ Not decided: equality of responses / app hashes as values for all blocks.
 import re
 
 from facts import short_name
-from kinds import (k1_callers, enum_switches, adt_variant_count, bool_payload_edges,
+from kinds import (comparisons, k1_callers, enum_switches, adt_variant_count, bool_payload_edges,
                    all_edges_of_flag, must_pass_block_corr)
 
 CRATES = ["astria_sequencer.lib", "astria_core.lib"]
@@ -299,7 +299,62 @@ def d3(prog, rep):
     rep.floor("D3", n, 3, "matches over ExecutionState")
 
 
+FINGERPRINT_FIELDS = ["time", "proposer_address", "txs", "proposed_last_commit", "misbehavior",
+                      "next_validators_hash", "height"]
+
+
+def d4_fingerprint(prog, rep):
+    """Cached execution results are reused when the ProcessProposal request "is" the prepared
+    proposal.  That decision has to look at every request field execution depends on (block
+    data: height, time, proposer, next validators hash, misbehaviour evidence; the txs; the
+    proposed last commit): a fingerprint that omits one reuses results computed for a different
+    block."""
+    ES = S + "app::execution_state::"
+    fn = ES + "ExecutionStateMachine::check_if_prepared_proposal"
+    b = prog.main_body(fn)
+    adt = prog.adts.get(ES + "CachedProposal")
+    have = [f[0] for f in adt["variants"][0][1]] if adt else []
+    rep.check(set(FINGERPRINT_FIELDS) <= set(have), "D4", "fingerprint:fields",
+              f"CachedProposal has fields {have}; execution depends on {FINGERPRINT_FIELDS}",
+              b.describe())
+    eqs = [c for c in b.calls if re.search(r"core::cmp::PartialEq::(eq|ne)$", c.callee or "")
+           and any("CachedProposal{" in b.root(a) for a in c.args)]
+    derived = [bb for bb in prog.bodies_of("<" + ES + "CachedProposal as core::cmp::PartialEq>::eq")]
+    if eqs and derived and all(bb.expn for bb in derived):
+        # built from the request field by field, compared with the derived (all-fields) equality
+        agg = next(b.root(a) for a in eqs[0].args if "CachedProposal{" in b.root(a))
+        missing = [f for f in FINGERPRINT_FIELDS if f"request.{f}" not in agg]
+        rep.check(not missing, "D4", "fingerprint:all-request-fields-compared",
+                  f"the fingerprint built from the request lacks {missing}: {agg[:120]}",
+                  eqs[0].where())
+        return
+    # a hand-written comparison: every field must take part in an equality somewhere in the
+    # functions the decision calls
+    seen_fields = set()
+    owners = {fn} | {t for c in b.calls for t in prog.resolve_targets(c) if t.startswith(ES)}
+    for o in owners:
+        for bb in prog.bodies_of(o):
+            for c in comparisons(bb):
+                if c.op == "Eq":
+                    for f in FINGERPRINT_FIELDS:
+                        if re.search(r"\." + f + r"\b", c.a) and re.search(r"\." + f + r"\b", c.b):
+                            seen_fields.add(f)
+            for c in bb.calls:
+                if any(re.search(r"(PartialEq(<.*>)?|partial_eq::.*)::(eq|ne)$|::(eq|ne)$", n or "")
+                       for n in c.names()) and len(c.args) == 2:
+                    ra, rb_ = bb.root(c.args[0]), bb.root(c.args[1])
+                    for f in FINGERPRINT_FIELDS:
+                        if re.search(r"\." + f + r"\b", ra) and re.search(r"\." + f + r"\b", rb_):
+                            seen_fields.add(f)
+    missing = [f for f in FINGERPRINT_FIELDS if f not in seen_fields]
+    rep.check(not missing, "D4", "fingerprint:all-request-fields-compared",
+              f"the prepared-proposal match does not compare {missing} of the request with the "
+              "cached proposal: execution results cached for a different block would be reused",
+              b.describe())
+
+
 def d4(prog, rep):
+    d4_fingerprint(prog, rep)
     body = prog.main_body(A + "process_proposal")
     chk = body.calls_to(S + "app::execution_state::ExecutionStateMachine::check_if_prepared_proposal")
     og = [c for c in body.calls if c.matches(r"StateRead>?::object_get$")
